@@ -11,8 +11,13 @@ def system():
                                              {"key": "child", "plural": "children"}])
     tbs = taxbenefitsystems.TaxBenefitSystem([person, household])
 
+    from openfisca_core import holders
+
     def mk(name, defp, ent, vt=float):
-        tbs.add_variable(type(name, (variables.Variable,), {"value_type": vt, "entity": ent, "definition_period": periods.DateUnit(defp)}))
+        attrs = {"value_type": vt, "entity": ent, "definition_period": periods.DateUnit(defp)}
+        if defp != "eternity":
+            attrs["set_input"] = holders.set_input_divide_by_period
+        tbs.add_variable(type(name, (variables.Variable,), attrs))
     mk("vm", "month", person)
     mk("vy", "year", person)
     mk("ve", "eternity", person)
@@ -36,6 +41,20 @@ def run(call):
             got = sim.get_array(var, periods.period(read))
             g = None if got is None else [float(x) for x in got]
             return {"kind": "return", "value": {"ok": g == [100.0, 200.0, 0.0], "got": g, "expected": [100.0, 200.0, 0.0], "situation": situation}}
+        if mode == "two-periods":
+            # a short and a long period starting together: the short one keeps its own values, the long one fills the rest
+            ka, kb = call["first"], call["second"]
+            na, nb = int(ka.split(":")[2]), int(kb.split(":")[2])
+            ns, nl = min(na, nb), max(na, nb)
+            total = {ns: 200.0 * ns, nl: 100.0 * nl}
+            situation = {"persons": {"a": {"vm": {ka: total[na], kb: total[nb]}}}}
+            sim = SimulationBuilder().build_from_entities(tbs, situation)
+            start = periods.period("2018-01")
+            got = [float(sim.get_array("vm", start.offset(k))[0]) if sim.get_array("vm", start.offset(k)) is not None else None for k in range(nl)]
+            rest = (total[nl] - total[ns]) / (nl - ns)
+            want = [200.0] * ns + [rest] * (nl - ns)
+            ok = all(g is not None and abs(g - w) < 1e-3 for g, w in zip(got, want))
+            return {"kind": "return", "value": {"ok": ok, "got": got[:12], "expected": want[:12], "situation": situation}}
         raise ValueError(mode)
     except BaseException as ex:
         return {"kind": "raise", "exc": type(ex).__name__, "mro": [c.__name__ for c in type(ex).__mro__],
